@@ -1,7 +1,7 @@
 """Effect rules: PURE-observers (C15, C06), AUTH-sketch-record / PAIR-readop-once / CONST-masks (C14),
 removal-cause classification shared with C03/C07."""
 from .core import RuleResult, CheckFailure
-from .roles import CHAN_RECV
+from .roles import CHAN_RECV, recv_types
 from .roles import named, ts_name_kind, sync_ts_fields
 from .kernel import norm
 from .roles import (get_roles, HASHMAP_MUT, HASHMAP_REMOVE, HASHMAP_INSERT, DASHMAP_MUT, DASHMAP_REMOVE, CHAN_SEND, SKETCH)
@@ -193,7 +193,7 @@ def rule_auth_sketch_record(ctx):
             ok, why = True, 'unsync get records the lookup'
         elif c.startswith('sync::'):
             # must consume ReadOps: calls Receiver::try_recv
-            ok = bool(CHAN_RECV & set(R.ext_calls[c]))
+            ok = bool(recv_types(ctx, c))
             why = 'applies queued ReadOps' if ok else 'increments the sketch without consuming a ReadOp'
         else:
             ok, why = False, 'unexpected caller of the sketch increment'
@@ -212,11 +212,8 @@ def rule_auth_sketch_record(ctx):
                 tg, ext, _ = prog.call_targets(b, t)
                 if set(tg) & inc:
                     leaves = ctx.orig.of_operand(b, t['args'][1]) if len(t['args']) > 1 else {}
-                    from_recv = any(l[0] in ('call', 'via') and str(l[1]) in CHAN_RECV for l in leaves)
-                    recv_ty = ''
-                    for bj, t2 in b.calls():
-                        if prog.call_targets(b, t2)[1] in CHAN_RECV:
-                            recv_ty += t2.get('self_ty', {}).get('s', '')
+                    from_recv = any(l[0] in ('call', 'via') and (str(l[1]) in CHAN_RECV or str(l[1]) == 'std::iter::from_fn') for l in leaves)
+                    recv_ty = recv_types(ctx, c)
                     ok = from_recv and 'ReadOp' in recv_ty and 'WriteOp' not in recv_ty
                     r.instance(function=c, increment_line=t.get('line'), hash_from_try_recv=from_recv, channel=recv_ty[:80], ok=ok)
                     if not ok:
